@@ -699,16 +699,14 @@ impl PeerManager {
                 let invite_token = MeetingSecret::derive_token(DERIVE_STRING, &invite.invite_id);
                 let o = self.allowed_token.get_mut(&invite_token);
                 if let Some(tokens) = o {
-                    let index = tokens.iter().position(|tt| {
+                    //the same invitation may have been accepted several times
+                    tokens.retain(|tt| {
                         if let TokenType::Invite(i) = tt {
-                            i.invite_id.eq(&invite.invite_id)
+                            !i.invite_id.eq(&invite.invite_id)
                         } else {
-                            false
+                            true
                         }
                     });
-                    if let Some(index) = index {
-                        tokens.remove(index);
-                    }
                 }
                 Invite::delete(room_id.clone(), invite.invite_id, &self.services.database).await?;
                 self.invites = Invite::list(room_id.clone(), &self.services.database).await?;
